@@ -271,12 +271,12 @@ def accountAdd : List Row := [
 finds in /repo's current source — file, enclosing function, kind, text, and number of occurrences
 — has rows in `accountAdd`.  Re-proved against the regenerated census on every run: a site added
 to the Rust that the account does not know breaks this `decide`. -/
-theorem census_add_accounted : covers Generated.panicCensusAdd accountAdd = true := by decide
+theorem census_add_accounted : coversF Generated.panicCensusAdd accountAdd = true := by decide
 
 /-! ## The tie bites, and only on additions (spot checks of `covers` itself) -/
 
 /-- a new `.unwrap()` in `parse_expr_bp` is not covered -/
-example : covers (("parsing/parser.rs", "parse_expr_bp", "unwrap", "Some(1)", 1) :: Generated.panicCensusAdd)
+example : coversF (("parsing/parser.rs", "parse_expr_bp", "unwrap", "Some(1)", 1) :: Generated.panicCensusAdd)
     accountAdd = false := by decide
 
 /-- one more occurrence of a known site in the same function is not covered -/
@@ -289,6 +289,13 @@ example : covers [("parsing/compiler.rs", "compile_kwargs", "macro", "unreachabl
 
 /-- fewer occurrences, or a site removed altogether, stay covered -/
 example : covers [("parsing/compiler.rs", "compile_expr", "macro", "unreachable!()", 4)] accountAdd = true
-    ∧ covers (Generated.panicCensusAdd.drop 1) accountAdd = true := by decide
+    ∧ coversF (Generated.panicCensusAdd.drop 1) accountAdd = true := by decide
 
+end Tera.PanicCensus
+
+/-! ## File-level form: moving a site into another function of the same file keeps the theorem -/
+namespace Tera.PanicCensus
+example : coversF [("parsing/compiler.rs", "compile_assignment", "unwrap", "scope", 2)] accountAdd = true := by decide
+example : coversF [("parsing/compiler.rs", "compile_assignment", "unwrap", "scope", 3)] accountAdd = false := by decide
+example : coversF (("parsing/parser.rs", "parse_expr_bp", "unwrap", "Some(1)", 1) :: Generated.panicCensusAdd) accountAdd = false := by decide
 end Tera.PanicCensus
